@@ -86,7 +86,9 @@ class Shadow(object):
 def history_unit(hists, idx):
     def h(c):
         M = mutators()
-        for hi, (pre, muts, mid, post) in enumerate(hists):
+        for hi, hist in enumerate(hists):
+            pre, muts, mid, post = hist[:4]
+            fresh_first = len(hist) > 4 and hist[4]
             tag = "h%d" % hi
             m = base_spec().build()
             sh = Shadow()
@@ -112,13 +114,19 @@ def history_unit(hists, idx):
             spec = sh.spec()
             fresh = spec.build()
             fresh.parameters = [vals[p] for p in sh.params]
-            label = "[%s | %s | %s | %s]" % (",".join(pre) or "-", ",".join(muts), ",".join(mid) or "-", ",".join(post))
+            label = "[%s | %s | %s | %s%s]" % (",".join(pre) or "-", ",".join(muts), ",".join(mid) or "-", ",".join(post),
+                                                " | reference model evaluated first" if fresh_first else "")
             env = dict(zip(sh.states, x))
             env["t"] = t
             env.update(vals)
             for f in post:
-                got = np.asarray(getattr(m, f)(x, t), dtype=object)
-                want = np.asarray(getattr(fresh, f)(x, t), dtype=object)
+                if fresh_first:
+                    # two models alive in one process: the reference is evaluated BEFORE the modified model
+                    want = np.asarray(getattr(fresh, f)(x, t), dtype=object)
+                    got = np.asarray(getattr(m, f)(x, t), dtype=object)
+                else:
+                    got = np.asarray(getattr(m, f)(x, t), dtype=object)
+                    want = np.asarray(getattr(fresh, f)(x, t), dtype=object)
                 if got.shape != want.shape:
                     c.prove(False, "%s %s has the shape a fresh model returns" % (label, f))
                     continue
@@ -138,6 +146,12 @@ def histories(tier):
             for pre in ([], [f], ["ode", f], list(EVALS)):
                 for post in ([f, "ode", f], ["ode", f]):
                     H.append((tuple(pre), (mu,), (), tuple(post)))
+    # a second model of the same class evaluates first (process-wide state must not leak between models)
+    for f in EVALS:
+        for mu in (ms if tier != "quick" else ms[::2]):
+            H.append(((f,), (mu,), (), (f,), True))
+            if tier != "quick":
+                H.append((tuple(EVALS), (mu,), (), tuple(EVALS), True))
     pairs = [(a, b) for a in ms for b in ms if a != b]
     if tier == "quick":
         pairs = pairs[::5]
@@ -154,7 +168,8 @@ class C08(Check):
     explanation = ("Bounded histories [evaluate]* . mutate . [evaluate]* . [mutate] . evaluate over all 11 evaluators and 9 mutators (legacy "
                    "transition, Event, single-Transition event, birth, death, explicit ODE, new parameter + event, derived parameter + event, "
                    "new parameter values) on a real model, each evaluator observed after the last step in both recompilation orders (evaluator "
-                   "first / ode first): z3 proves that what the mutated model returns equals what a freshly constructed model with the same "
+                   "first / ode first) and in both observation orders (modified model first / reference model first -- two models alive in one "
+                   "process): z3 proves that what the mutated model returns equals what a freshly constructed model with the same "
                    "final definition returns, for all evaluation points and parameter values, and that ode equals the oracle of the final definition.")
     assumptions = ["histories longer than two mutations are not explored", "lambdify back-end"]
 
